@@ -103,6 +103,15 @@ def impl(fname, args):
     raise KeyError(fname)
 
 
+_BY = {}
+
+
+def impl_lookup(fname, args):
+    """the answers computed in the guarded worker process; asked again (or in another interpreter) the call is made directly"""
+    key = (fname, args[0])
+    return _BY.pop(key) if key in _BY else impl(fname, args)
+
+
 def _worker(job):
     fname, t = job
     return impl(fname, [t])
@@ -209,7 +218,10 @@ def run(ctx):
                       % (culprit[0], len(culprit[1])), culprit[1])
         return
     by = dict(zip(jobs, res))
-    bad = ctx.compare('corr:unsign', [(fn, [t]) for fn, t in jobs], lambda fn, args: by[(fn, args[0])])
+    _BY.clear()
+    _BY.update(by)
+    bad = ctx.compare('corr:unsign', [(fn, [t]) for fn, t in jobs], impl_lookup)
+    _BY.clear()
 
     fails = []
     st = ctx.stream('prop:statement')
